@@ -101,3 +101,51 @@ def cpCandidates (k : List Ins) (es : List Edge) : List (List (Nat × Rat)) :=
     (all.filter (fun (_, s) => s == best)).map fun (p, _) => cpReport k es p
 
 end OsacaVerif.LCD
+
+namespace OsacaVerif.LCD
+open OsacaVerif OsacaVerif.DG
+
+/-! ### critical path, repaired code (`get_critical_path` after the fix): one pass over the lines in order -/
+
+structure CpRow where
+  line : Nat
+  longer : Option (Rat × Nat)      -- best chain with ≥ 2 instructions ending here (without own latency), predecessor
+  carried : Rat × Option Nat        -- what a chain brings into a successor of this line, predecessor
+  deriving Repr, Inhabited
+
+/-- weight of the separately modelled load stage `line.1 → line` (0 if there is none) -/
+def loadEdgeOf (es : List Edge) (l : Nat) : Rat :=
+  match es.find? (fun e => e.src == ⟨l, true⟩ && e.dst == ⟨l, false⟩) with
+  | some e => e.w
+  | none => 0
+
+/-- Python `max(candidates, key=value)`: the first maximal element -/
+def firstMax : List (Rat × Nat) → Option (Rat × Nat)
+  | [] => none
+  | c :: cs => some (cs.foldl (fun (m : Rat × Nat) (x : Rat × Nat) => if m.1 < x.1 then x else m) c)
+
+def cpStep (es : List Edge) (acc : List CpRow) (i : Ins) : List CpRow :=
+  let ls := loadEdgeOf es i.line
+  let cands := es.filterMap fun e =>
+    if !e.src.load && !e.dst.load && e.dst.line == i.line then
+      (acc.find? (·.line == e.src.line)).map fun r => (r.carried.1 + e.w, e.src.line)
+    else none
+  let longer := firstMax cands
+  let carried : Rat × Option Nat := match longer with
+    | some (v, p) => if ls < v then (v, some p) else (ls, none)
+    | none => (ls, none)
+  acc ++ [{ line := i.line, longer := longer, carried := carried }]
+
+def cpTable (k : List Ins) (es : List Edge) : List CpRow := k.foldl (cpStep es) []
+
+def chainLengthAt (k : List Ins) (t : List CpRow) (i : Ins) : Rat :=
+  (match (t.find? (·.line == i.line)).bind (·.longer) with | some (v, _) => v | none => 0) + i.lat
+
+/-- the reported critical-path total: the largest `chain_length` over the lines (0 for an empty kernel) -/
+def cpTotal (k : List Ins) (es : List Edge) : Rat :=
+  let t := cpTable k es
+  match k.map (chainLengthAt k t) with
+  | [] => 0
+  | v :: vs => vs.foldl (fun (m : Rat) x => if m < x then x else m) v
+
+end OsacaVerif.LCD
